@@ -45,6 +45,11 @@ impl Obs {
     fn f32s<'a>(&mut self, name: &str, vs: impl IntoIterator<Item = &'a f32>) {
         self.push(name, digest_f32(vs));
     }
+    /// any linfa float type, through its exact widening to f64
+    fn ff<'a, F: linfa::Float>(&mut self, name: &str, vs: impl IntoIterator<Item = &'a F>) {
+        let w: Vec<f64> = vs.into_iter().map(|v| v.to_f64().unwrap()).collect();
+        self.push(name, digest_f64(w.iter()));
+    }
     fn f1(&mut self, name: &str, v: f64) {
         self.push(name, digest_f64([v].iter()));
     }
@@ -194,37 +199,48 @@ mod est_cluster {
     use linfa_nn::distance::L2Dist;
 
     pub fn kmeans(inp: &Value, d: &Data, o: &mut Obs) {
+        if gets_or(inp, "var", "pp").ends_with("_f32") {
+            kmeans_t::<f32>(inp, d, o)
+        } else {
+            kmeans_t::<f64>(inp, d, o)
+        }
+    }
+
+    fn kmeans_t<F: linfa::Float + serde::Serialize>(inp: &Value, d: &Data, o: &mut Obs) {
         let k = geti_or(inp, "k", 3) as usize;
-        let var = gets_or(inp, "var", "pp");
-        let ds = DatasetBase::from(d.x.clone());
+        let var = gets_or(inp, "var", "pp").trim_end_matches("_f32");
+        let x: Array2<F> = d.x.mapv(|v| F::cast(v));
+        let xt: Array2<F> = d.xt.mapv(|v| F::cast(v));
+        let ds = DatasetBase::from(x.clone());
         let init = match var {
             "random" | "default_random" => KMeansInit::Random,
-            "pre" => KMeansInit::Precomputed(d.x.slice(ndarray::s![0..k, ..]).to_owned()),
+            "pre" => KMeansInit::Precomputed(x.slice(ndarray::s![0..k, ..]).to_owned()),
             _ => KMeansInit::KMeansPlusPlus,
         };
+        let iters = geti_or(inp, "iters", 8) as u64;
         let res = if var.starts_with("default") {
             // builder default seed
-            KMeans::params(k).init_method(init).n_runs(2).max_n_iterations(geti_or(inp, "iters", 8) as u64).tolerance(1e-5).fit(&ds)
+            KMeans::params(k).init_method(init).n_runs(2).max_n_iterations(iters).tolerance(F::cast(1e-5)).fit(&ds)
         } else {
             KMeans::params_with(k, rng_of(inp), L2Dist)
                 .init_method(init)
                 .n_runs(geti_or(inp, "runs", 2) as usize)
-                .max_n_iterations(geti_or(inp, "iters", 8) as u64)
-                .tolerance(1e-5)
+                .max_n_iterations(iters)
+                .tolerance(F::cast(1e-5))
                 .fit(&ds)
         };
         match res {
             Ok(m) => {
                 o.model("model", &m);
-                o.f("centroids", m.centroids().iter());
-                o.f1("inertia", m.inertia());
-                o.f("cluster_count", m.cluster_count().iter());
-                let p: Array1<usize> = m.predict(&d.xt);
+                o.ff("centroids", m.centroids().iter());
+                o.ff("inertia", [m.inertia()].iter());
+                o.ff("cluster_count", m.cluster_count().iter());
+                let p: Array1<usize> = m.predict(&xt);
                 o.labels("predict", &p.iter().map(|v| *v as i64).collect::<Vec<_>>());
-                let p: Array1<usize> = m.predict(&d.x);
+                let p: Array1<usize> = m.predict(&x);
                 o.u("predict_train", p.iter());
-                let t: Array1<f64> = m.transform(&d.x);
-                o.f("transform", t.iter());
+                let t: Array1<F> = m.transform(&x);
+                o.ff("transform", t.iter());
             }
             Err(e) => o.err("model", &e),
         }
@@ -630,6 +646,82 @@ mod est_cls {
         }
     }
 
+    fn str_labels(d: &Data) -> Array1<String> {
+        // names whose order differs from the numeric order of the class ids
+        d.yc.mapv(|c| format!("{}-class", ["pear", "apple", "fig", "kiwi", "date", "lime", "plum", "nut"][c % 8]))
+    }
+    fn sl(v: &Array1<String>) -> String {
+        v.iter().cloned().collect::<Vec<_>>().join(",")
+    }
+
+    /// string labels: hashing and ordering of the classes differ from the usize case
+    pub fn tree_str(inp: &Value, d: &Data, o: &mut Obs) {
+        let ds = DatasetBase::new(d.x.clone(), str_labels(d));
+        let q = if gets_or(inp, "var", "gini") == "entropy" { SplitQuality::Entropy } else { SplitQuality::Gini };
+        match DecisionTree::params().split_quality(q).max_depth(Some(geti_or(inp, "depth", 4) as usize)).fit(&ds) {
+            Ok(m) => {
+                o.model("model", &m);
+                let p: Array1<String> = m.predict(&d.xt);
+                o.text("predict", &sl(&p));
+                o.f("impurity_decrease", m.mean_impurity_decrease().iter());
+                o.labels("features_seq", &m.features().iter().map(|v| *v as i64).collect::<Vec<_>>());
+            }
+            Err(e) => o.err("model", &e),
+        }
+    }
+
+    pub fn gnb_str(_inp: &Value, d: &Data, o: &mut Obs) {
+        let ds = DatasetBase::new(d.x.clone(), str_labels(d));
+        match GaussianNb::params().fit(&ds) {
+            Ok(m) => {
+                o.model("model", &m);
+                let p: Array1<String> = m.predict(&d.xt);
+                o.text("predict", &sl(&p));
+            }
+            Err(e) => o.err("model", &e),
+        }
+    }
+
+    /// incremental naive Bayes: two overlapping batches through `fit_with`
+    pub fn nb_incr(inp: &Value, d: &Data, o: &mut Obs) {
+        let n = d.x.nrows();
+        let h = (n * 2 / 3).max(1);
+        let lo = d.x.iter().cloned().fold(0.0f64, f64::min);
+        let x = d.x.mapv(|v| v - lo);
+        let xt = d.xt.mapv(|v| (v - lo).max(0.0));
+        let b1 = DatasetBase::new(x.slice(ndarray::s![0..h, ..]).to_owned(), d.yc.slice(ndarray::s![0..h]).to_owned());
+        let b2 = DatasetBase::new(x.slice(ndarray::s![(n - h).., ..]).to_owned(), d.yc.slice(ndarray::s![(n - h)..]).to_owned());
+        if gets_or(inp, "var", "gaussian") == "multinomial" {
+            let params = MultinomialNb::params().check().unwrap();
+            let mut model = None;
+            for b in [&b1, &b2] {
+                model = match params.fit_with(model, b) {
+                    Ok(m) => m,
+                    Err(e) => return o.err("model", &e),
+                };
+            }
+            if let Some(m) = model {
+                o.model("model", &m);
+                let p: Array1<usize> = m.predict(&xt);
+                o.labels("predict", &ul(&p));
+            }
+        } else {
+            let params = GaussianNb::params().check().unwrap();
+            let mut model = None;
+            for b in [&b1, &b2] {
+                model = match params.fit_with(model, b) {
+                    Ok(m) => m,
+                    Err(e) => return o.err("model", &e),
+                };
+            }
+            if let Some(m) = model {
+                o.model("model", &m);
+                let p: Array1<usize> = m.predict(&xt);
+                o.labels("predict", &ul(&p));
+            }
+        }
+    }
+
     pub fn gnb(_inp: &Value, d: &Data, o: &mut Obs) {
         let ds = cls_ds(d);
         match GaussianNb::params().fit(&ds) {
@@ -933,6 +1025,9 @@ fn registry() -> BTreeMap<&'static str, EstFn> {
     m.insert("svm_multi", est_cls::svm_multi);
     m.insert("tree", est_cls::tree);
     m.insert("gnb", est_cls::gnb);
+    m.insert("tree_str", est_cls::tree_str);
+    m.insert("gnb_str", est_cls::gnb_str);
+    m.insert("nb_incr", est_cls::nb_incr);
     m.insert("mnb", est_cls::mnb);
     m.insert("ftrl", est_cls::ftrl);
     m.insert("pca", est_dec::pca);
